@@ -198,7 +198,7 @@ def n_for_training_size(m, pct):
 
 
 # ----------------------------------------------------------------------------------------------- generators
-STYLES = ['dyadic01', 'dyadic01', 'dyadic01', 'float', 'shifted', 'int', 'dup', 'constfeat']
+STYLES = ['dyadic01', 'dyadic01', 'dyadic01', 'float', 'shifted', 'int', 'dup', 'constfeat', 'tinyrange', 'hugerange']
 
 
 def gen_xy(rng, dim, M, below_minus_one=False, style=None, ystyle=None):
@@ -231,10 +231,14 @@ def gen_xy(rng, dim, M, below_minus_one=False, style=None, ystyle=None):
         data = [[off[d] + sc[d] * rng.randrange(0, 65) / 64 for d in range(dim)] for _ in range(M)]
     elif style == 'int':
         data = [[rng.randrange(-5, 21) for _ in range(dim)] for _ in range(M)]
+    elif style in ('tinyrange', 'hugerange'):      # magnitudes 2^-60 .. 2^30 (exact scalings of a dyadic lattice)
+        e = [rng.choice([-60, -40, -20]) if style == 'tinyrange' else rng.choice([20, 30]) for _ in range(dim)]
+        sg = [rng.choice([1.0, -1.0]) for _ in range(dim)]
+        data = [[sg[d] * rng.randrange(0, 65) / 64 * 2.0 ** e[d] for d in range(dim)] for _ in range(M)]
     else:                          # 'dup': few distinct points, many repetitions
         pts = [[_de.dyadic(rng, 3) for _ in range(dim)] for _ in range(max(2, M // 4))]
         data = [list(rng.choice(pts)) for _ in range(M)]
-    ystyle = ystyle or rng.choice(['dyadic', 'dyadic', 'dyadic', 'float', 'const', 'big', 'ties'])
+    ystyle = ystyle or rng.choice(['dyadic', 'dyadic', 'dyadic', 'float', 'const', 'big', 'ties', 'tiny', 'huge', 'offset'])
     lo = -16 if below_minus_one else -4
     if ystyle == 'dyadic':
         y = [rng.randrange(lo, 17) / 4 for _ in range(M)]
@@ -244,12 +248,47 @@ def gen_xy(rng, dim, M, below_minus_one=False, style=None, ystyle=None):
         y = [rng.choice([0.0, 1.0, -2.5])] * M
     elif ystyle == 'big':
         y = [float(rng.randrange(-4000, 4001)) for _ in range(M)]
+    elif ystyle == 'tiny':
+        y = [rng.randrange(-16, 17) / 4 * 2.0 ** -40 for _ in range(M)]
+    elif ystyle == 'huge':
+        y = [rng.randrange(-16, 17) / 4 * 2.0 ** 30 for _ in range(M)]
+    elif ystyle == 'offset':       # far from the origin, small variation
+        y = [2.0 ** 20 + rng.randrange(-16, 17) / 4 for _ in range(M)]
     else:
         y = [float(rng.choice([-1, 0, 1])) for _ in range(M)]
     return data, y, style, ystyle
 
 
 LAMS = [0, 0, 0.125, 0.125, 0.01, 1.0, 1e-6, 1e-4, 100.0]
+
+
+OBSERVERS = ['test', 'call', 'get_result', 'C', 'left', 'right', 'A', 'interpolate']
+
+
+def decorate(rng, c, fresh=True):
+    """axes that every request draws for itself: container of the arguments, level-vector container, observer calls between
+    the steps, defaults left implicit"""
+    if fresh and c.get('style') != 'int' and 'container' not in c:
+        exact32 = c.get('style') == 'dyadic01'
+        r = rng.random()
+        if r < 0.1:
+            c['container'] = 'list'
+        elif r < 0.2:
+            c['container'] = 'view'
+        elif r < 0.28:
+            c['container'] = 'fortran'
+        elif r < 0.36:
+            c['container'] = 'strided'
+        elif r < 0.46 and exact32:
+            c['container'] = 'float32'
+    if c['kind'] == 'uniform':
+        c['lv_container'] = rng.choice(['list', 'list', 'ndarray', 'tuple'])
+    if c['kind'] in ('train', 'train-adaptive', 'uniform') and rng.random() < 0.6:
+        c['observers'] = rng.sample(OBSERVERS, rng.randrange(1, 4))
+        c['oseed'] = rng.randrange(1000)
+    if c['kind'] in ('train', 'train-adaptive') and rng.random() < 0.4:
+        c['implicit_defaults'] = True
+    return c
 
 
 def gen_direct(rng, quick, uniform, size=None):
@@ -304,7 +343,7 @@ def gen_direct(rng, quick, uniform, size=None):
     c = dict(kind='uniform' if uniform else 'dimension-wise', dim=dim, lam=lam, matrix=matrix, data=data, y=y, style=st,
              ystyle=yst)
     c.update(grid)
-    return c
+    return decorate(rng, c)
 
 
 def gen_train(rng, adaptive=False, size='small'):
@@ -340,10 +379,8 @@ def gen_train(rng, adaptive=False, size='small'):
     elif rng.random() < 0.25:
         c['noisy'] = True
     data, y, st, yst = gen_xy(rng, dim, M, style=None if size == 'small' else 'dyadic01')
-    if rng.random() < 0.15:
-        c['container'] = 'list'
     c.update(data=data, y=y, style=st, ystyle=yst)
-    return c
+    return decorate(rng, c)
 
 
 def gen_construct(rng):
@@ -357,13 +394,19 @@ def gen_construct(rng):
     return c
 
 
-def gen_history(rng, quick):
+HISTORY_FLAVOURS = ['direct-u', 'direct-dw', 'train-train', 'adaptive-adaptive', 'objects', 'train-direct', 'reinit', 'interleaved',
+                    'shared-arrays', 'sibling']
+
+
+def gen_history(rng, quick, flavour=None):
     """2-4 requests; 'reuse' = on the object of the previous step (same data, lambda, matrix), else a new object in the
     same process (module / class level state).  Histories the unchanged library cannot run (train() after
     train_spatially_adaptive(): AttributeError in StandardCombi) are not generated."""
-    flavour = rng.choice(['direct-u', 'direct-u', 'direct-dw', 'train-train', 'train-train', 'adaptive-adaptive', 'objects',
-                          'objects', 'train-direct'])
+    flavour = flavour or rng.choice(['direct-u', 'direct-u', 'direct-dw', 'train-train', 'train-train', 'adaptive-adaptive', 'objects',
+                                     'objects', 'train-direct', 'reinit', 'reinit', 'interleaved', 'interleaved', 'shared-arrays', 'sibling'])
     steps = []
+    if flavour in ('reinit', 'interleaved', 'shared-arrays', 'sibling'):
+        return gen_history2(rng, quick, flavour)
     if flavour in ('direct-u', 'direct-dw'):
         base = gen_direct(rng, quick, flavour == 'direct-u')
         M = max(len(base['data']), 6)
@@ -390,6 +433,7 @@ def gen_history(rng, quick):
                     # another training subset of the same object
                     rows = sorted(rng.sample(range(M), rng.randrange(max(2, M // 2), M + 1)))
                     s['rows'] = rows
+                decorate(rng, s, fresh=False)
             steps.append(s)
     elif flavour in ('train-train', 'adaptive-adaptive', 'train-direct'):
         base = gen_train(rng, adaptive=flavour == 'adaptive-adaptive')
@@ -410,8 +454,9 @@ def gen_history(rng, quick):
                 s = dict(base, reuse=True, kind='uniform', lv=lv)
                 M = len(base['data'])
                 s['rows'] = sorted(rng.sample(range(M), rng.randrange(max(2, M // 2), M + 1)))
-                for key in ('lmin', 'lmax', 'pct', 'noisy', 'max_evals'):
+                for key in ('lmin', 'lmax', 'pct', 'noisy', 'max_evals', 'observers', 'implicit_defaults'):
                     s.pop(key, None)
+            decorate(rng, s, fresh=False)
             steps.append(s)
     else:       # several objects in one process: other data / lambda / matrix, same level vectors
         a = gen_train(rng) if rng.random() < 0.5 else gen_direct(rng, quick, True)
@@ -424,6 +469,101 @@ def gen_history(rng, quick):
             b['lam'] = rng.choice([x for x in (0, 0.125, 0.01, 1.0) if x != a['lam']])
             b['matrix'] = rng.choice(['C', 'I'])
             steps.append(b)
+    return dict(kind='history', flavour=flavour, dim=steps[0]['dim'], steps=steps)
+
+
+def _small_request(rng, quick, dim=None):
+    """a cheap request (training run or direct call on a uniform grid) of the given dimension"""
+    for _ in range(200):
+        c = gen_train(rng) if rng.random() < 0.5 else gen_direct(rng, quick, True)
+        if (dim is None or c['dim'] == dim) and c['dim'] <= 3:
+            c.pop('noisy', None)
+            return c
+    return c
+
+
+def gen_history2(rng, quick, flavour):
+    """histories of the lessons sweep:
+    reinit        - the constructor is run again on ONE object with other data (also another dimension), lambda, matrix; every call
+                    draws its own level range / test share
+    interleaved   - two live objects with different data / lambda / matrix work alternately (class-level state, caches)
+    shared-arrays - several objects are built from the SAME data / target objects (next to equal fresh copies elsewhere)
+    sibling       - an object of the sibling class DensityEstimation works in the same process between two requests"""
+    steps = []
+    if flavour == 'reinit':
+        a = _small_request(rng, quick)
+        steps.append(a)
+        for k in range(rng.choice([1, 2])):
+            if rng.random() < 0.7:
+                # the same request shape (level vectors / level range) with other data, another lambda (both regularised in most
+                # cases) and matrix: anything that survives the constructor shows here
+                b = dict(steps[-1])
+                for key in ('reuse', 'rows', 'same_arrays'):
+                    b.pop(key, None)
+                M = len(b['data']) if rng.random() < 0.5 else rng.choice([6, 12, 20])
+                b['data'], b['y'], b['style'], b['ystyle'] = gen_xy(rng, b['dim'], max(M, 6 if b['kind'] == 'train' else 1))
+                b.pop('container', None)
+                b['lam'] = rng.choice([x for x in (0, 0.125, 0.01, 1.0, 10.0) if x != steps[-1]['lam']])
+                b['matrix'] = rng.choice(['C', 'I'])
+                decorate(rng, b)
+            else:
+                b = _small_request(rng, quick, dim=None if rng.random() < 0.5 else a['dim'])
+            b['reinit'] = True
+            steps.append(b)
+            if rng.random() < 0.4:          # and a second request on the re-initialised object
+                c = dict(b, reuse=True)
+                c.pop('reinit')
+                if c['kind'] == 'train':
+                    c['pct'] = rng.choice([p for p in (0.1, 0.2, 0.3, 0.5) if p != b['pct']])
+                    c['lmin'], c['lmax'] = rng.choice([(1, 2), (1, 3), (2, 2)]) if c['dim'] < 3 else (1, 2)
+                else:
+                    c['lv'] = list(rng.sample(b['lv'], len(b['lv'])))
+                steps.append(c)
+    elif flavour == 'interleaved':
+        a = _small_request(rng, quick)
+        b = _small_request(rng, quick, dim=a['dim'] if rng.random() < 0.7 else None)
+        a['obj'], b['obj'] = 0, 1
+        steps += [a, b]
+        for k in range(rng.choice([1, 2, 2])):
+            base = (a, b)[k % 2]
+            c = dict(base, reuse=True)
+            if c['kind'] == 'train':
+                c['pct'] = rng.choice([p for p in (0.1, 0.2, 0.3, 0.5) if p != base['pct']])
+                c['lmin'], c['lmax'] = rng.choice([(1, 2), (1, 3), (2, 2)]) if c['dim'] < 3 else (1, 2)
+            else:
+                M = len(base['data'])
+                if M >= 4:
+                    c['rows'] = sorted(rng.sample(range(M), rng.randrange(max(2, M // 2), M + 1)))
+                if rng.random() < 0.5:
+                    c['lv'] = list(rng.sample(base['lv'], len(base['lv'])))
+            decorate(rng, c, fresh=False)
+            steps.append(c)
+    elif flavour == 'shared-arrays':
+        a = _small_request(rng, quick)
+        steps.append(a)
+        for k in range(rng.choice([1, 2])):
+            b = dict(a, same_arrays=True, obj=k + 1)
+            b['lam'] = rng.choice([x for x in (0, 0.125, 0.01, 1.0) if x != a['lam']])
+            b['matrix'] = rng.choice(['C', 'I'])
+            if b['kind'] == 'train':
+                b['pct'] = rng.choice([0.1, 0.2, 0.3, 0.5])
+            decorate(rng, b, fresh=False)
+            steps.append(b)
+        if rng.random() < 0.5:      # back to the first object
+            c = dict(a, reuse=True, obj=0)
+            steps.append(c)
+    else:
+        a = _small_request(rng, quick)
+        steps.append(a)
+        M = rng.choice([8, 20])
+        sd, _, _, _ = gen_xy(rng, a['dim'], M, style='float')
+        steps.append(dict(kind='sibling', dim=a['dim'], data=sd, y=[0.0] * M, lam=rng.choice([0.0, 0.01]), matrix='I'))
+        b = dict(a, reuse=True)
+        if b['kind'] == 'train':
+            b['pct'] = rng.choice([p for p in (0.1, 0.2, 0.3, 0.5) if p != a['pct']])
+        else:
+            b['lv'] = list(rng.sample(a['lv'], len(a['lv'])))
+        steps.append(b)
     return dict(kind='history', flavour=flavour, dim=steps[0]['dim'], steps=steps)
 
 
@@ -449,6 +589,9 @@ CORPUS = [
     # noisy_data with only negative targets: the noise level max(targets) * 0.01 is negative
     dict(kind='train', dim=1, lam=0.125, matrix='C', data=[[i / 16] for i in range(0, 17)], y=[-1.0 - (i % 5) / 4 for i in range(17)],
          lmin=1, lmax=2, pct=0.2, noisy=True),
+    # a feature with range 2^-60 (< 10 eps): MinMaxScaler leaves it unscaled
+    dict(kind='construct-explicit-range', dim=1, lam=0.125, matrix='C', data=[[0.0], [2.0 ** -60], [2.0 ** -61]], y=[1.0, 2.0, 0.5],
+         style='tinyrange'),
     # three dimensions, level 2 in a leading dimension (couplings far from the diagonal in the row-major ordering)
     dict(kind='uniform', dim=3, lv=[2, 1, 2], lam=0.125, matrix='C',
          data=[[0.0, 0.0, 0.0], [1.0, 1.0, 1.0], [0.25, 0.75, 0.25], [0.75, 0.25, 0.5625], [0.5625, 0.5625, 0.75]],
@@ -457,35 +600,139 @@ CORPUS = [
 
 
 # ----------------------------------------------------------------------------------------------- implementation
-def _mk(case, default_range=False):
+SENTINEL = 777.25
+
+
+class _Args:
+    """registry of every object handed to the library in one history: snapshot at hand-over, compared after every step"""
+    def __init__(self):
+        self.items = []          # (name, object, snapshot)
+
+    @staticmethod
+    def _snap(o):
+        import copy
+        import numpy as np
+        return o.copy() if isinstance(o, np.ndarray) else copy.deepcopy(o)
+
+    def add(self, name, o):
+        for _, q, _ in self.items:
+            if q is o:
+                return o
+        self.items.append((name, o, self._snap(o)))
+        return o
+
+    def mutated(self):
+        import numpy as np
+        bad = []
+        for name, o, snap in self.items:
+            same = (o.shape == snap.shape and o.dtype == snap.dtype and np.array_equal(o, snap)) if isinstance(o, np.ndarray) else o == snap
+            if not same:
+                bad.append(name)
+        return bad
+
+
+def _make_arrays(case):
+    """the data / target objects in the requested container (ndarray, list, integer dtype, float32, Fortran order,
+    non-contiguous view of a larger parent, strided view)"""
     import numpy as np
+    cont = case.get('container', 'ndarray')
+    if cont == 'list':
+        return [list(x) for x in case['data']], list(case['y'])
+    if case.get('style') == 'int':
+        return np.array(case['data'], dtype=int), np.array(case['y'], dtype=float)
+    data, y = np.array(case['data'], dtype=float), np.array(case['y'], dtype=float)
+    if cont == 'float32':
+        data = data.astype(np.float32)
+    elif cont == 'fortran':
+        data = np.asfortranarray(data)
+    elif cont == 'view':          # columns of a wider parent, rows of a longer one
+        parent = np.full((len(data) + 2, data.shape[1] + 2), 0.3125)
+        parent[1:-1, 1:-1] = data
+        data = parent[1:-1, 1:-1]
+        py = np.full(len(y) + 3, -0.75); py[2:-1] = y; y = py[2:-1]
+    elif cont == 'strided':
+        parent = np.repeat(data, 2, axis=0); parent[1::2] = 0.4375
+        data = parent[::2]
+        py = np.repeat(y, 2); py[1::2] = 9.5; y = py[::2]
+    return data, y
+
+
+def _mk(case, default_range=False, args=None, arrays=None, target=None):
+    """a new Regression object, or (target given) the constructor run again on an existing object"""
     from sparseSpACE.GridOperation import Regression
     from sparseSpACE.Utils import print_levels, log_levels
     kw = {} if case.get('all_defaults') else dict(print_level=print_levels.ERROR, log_level=log_levels.ERROR)
     if not default_range:
         kw['rangee'] = RANGE
-    if case.get('container') == 'list':
-        data, y = [list(x) for x in case['data']], list(case['y'])
-    elif case.get('style') == 'int':
-        data, y = np.array(case['data'], dtype=int), np.array(case['y'], dtype=float)
-    else:
-        data, y = np.array(case['data'], dtype=float), np.array(case['y'], dtype=float)
-    return Regression(data=data, target_values=y, regularization=case['lam'], regularization_matrix=case['matrix'], **kw)
+    data, y = arrays if arrays is not None else _make_arrays(case)
+    if args is not None:
+        args.add('data', data); args.add('target_values', y)
+    if target is not None:
+        target.__init__(data=data, target_values=y, regularization=case['lam'], regularization_matrix=case['matrix'], **kw)
+        return target, (data, y)
+    return Regression(data=data, target_values=y, regularization=case['lam'], regularization_matrix=case['matrix'], **kw), (data, y)
 
 
 def _lvkey(lv):
     return ','.join(str(int(x)) for x in lv)
 
 
-def _step(r, case):
+def _surplus_snapshot(r):
+    import numpy as np
+    return {k: np.array(v, dtype=float).copy() for k, v in r.surpluses.items()}
+
+
+def _same_surpluses(a, b):
+    import numpy as np
+    return set(a) == set(b) and all(np.array_equal(a[k], b[k], equal_nan=True) for k in a)
+
+
+def _observers(r, case, combi, rs):
+    """public calls on the LIVE object between two requests; they must not change its state"""
+    import numpy as np
+    done = []
+    names = case.get('observers') or []
+    before = _surplus_snapshot(r)
+    data0 = np.array(r.data, dtype=float).copy()
+    for name in names:
+        if name == 'test' and combi is not None and case['kind'] == 'train':
+            r.test(combi)
+        elif name == 'call' and combi is not None and case['kind'] == 'train':
+            combi(np.array(r.test_data[:3]))
+        elif name == 'get_result':
+            r.get_result()
+        elif name in ('C', 'left', 'right', 'A') and case['kind'] in ('train', 'uniform'):
+            lv = [int(x) for x in (combi.scheme[rs.randrange(len(combi.scheme))].levelvector if combi is not None else case['lv'])]
+            if int(np.prod(2 ** np.asarray(lv, dtype=int) - 1)) > 64:
+                continue
+            r.grid.numPoints = 2 ** np.asarray(lv, dtype=int) - 1
+            res = dict(C=r.build_C_matrix, left=r.build_left_matrix, right=r.build_right_vector, A=r.build_A_matrix)[name](lv)
+            res[...] = SENTINEL      # what an observer returns is the caller's: writing into it must not reach the object
+        elif name == 'interpolate' and combi is not None and case['kind'] == 'train':
+            r.interpolate_points_component_grid(combi.scheme[0], mesh_points_grid=None, evaluation_points=np.array(r.validation_data[:2]))
+        else:
+            continue
+        done.append(name)
+    changed = []
+    if not _same_surpluses(before, _surplus_snapshot(r)):
+        changed.append('surpluses')
+    if not np.array_equal(data0, np.array(r.data, dtype=float)):
+        changed.append('data')
+    return done, changed
+
+
+def _step(r, case, args):
     """one request on the object r; everything observable is copied out"""
+    import random
     import numpy as np
     kind = case['kind']
+    rs = random.Random(case.get('oseed', 0))
     out = {}
     out['data'] = _de.tolist(r.data); out['y'] = _de.tolist(r.target_values)
     if kind.startswith('construct'):
         return out
     dim = case['dim']
+    aliased = []
     if kind in ('uniform', 'dimension-wise'):
         rows = case.get('rows')
         if rows is None:
@@ -496,31 +743,67 @@ def _step(r, case):
             r.training_target_values = np.asarray(r.target_values)[rows]
         out['train_data'] = _de.tolist(r.training_data); out['train_y'] = _de.tolist(r.training_target_values)
         if kind == 'uniform':
-            lv = [int(l) for l in case['lv']]
-            N = int(np.prod(2 ** np.asarray(lv, dtype=int) - 1))
-            r.grid.numPoints = 2 ** np.asarray(lv, dtype=int) - 1
-            out['A'] = _de.tolist(r.build_A_matrix(lv))
-            out['C'] = _de.tolist(r.build_C_matrix(lv)) if N <= N_C_IMPL else None
+            lvl = [int(l) for l in case['lv']]
+            cont = case.get('lv_container', 'list')
+            lv = args.add('levelvec', np.array(lvl, dtype=int) if cont == 'ndarray' else tuple(lvl) if cont == 'tuple' else list(lvl))
+            N = int(np.prod(2 ** np.asarray(lvl, dtype=int) - 1))
+            r.grid.numPoints = 2 ** np.asarray(lvl, dtype=int) - 1
+            A = r.build_A_matrix(lv)
+            out['A'] = _de.tolist(A)
+            C = r.build_C_matrix(lv) if N <= N_C_IMPL else None
+            out['C'] = _de.tolist(C) if C is not None else None
             from sparseSpACE.ComponentGridInfo import ComponentGridInfo
             al = r.evaluate_levelvec(ComponentGridInfo(lv, 1))
             out['alphas'] = _de.tolist(al)
-            out['stored'] = _de.tolist(r.surpluses[tuple(lv)])
+            out['stored'] = _de.tolist(r.surpluses[tuple(lvl)])
+            if case['lam'] != 0 and N <= 30:
+                # the system the solve uses, observed AFTER the solve (an observer call on the live object)
+                L = r.build_left_matrix(lv); rhs = r.build_right_vector(lv)
+                out['L'] = _de.tolist(L); out['rhs'] = _de.tolist(rhs)
+                L[...] = SENTINEL; rhs[...] = SENTINEL
+            done, changed = _observers(r, case, None, rs)
+            out['observers'] = done; out['observer_changed'] = changed
+            # returned objects belong to the caller: overwrite them, then look at the object again
+            A[...] = SENTINEL
+            if C is not None:
+                C[...] = SENTINEL
+            al[...] = SENTINEL
+            if N * len(r.training_data) <= 20000:
+                if (np.asarray(r.build_A_matrix(lv)) == SENTINEL).any():
+                    aliased.append('build_A_matrix')
+                if N <= 64 and (np.asarray(r.build_C_matrix(lv)) == SENTINEL).any():
+                    aliased.append('build_C_matrix')
+                if case['lam'] != 0 and N <= 30 and ((np.asarray(r.build_left_matrix(lv)) == SENTINEL).any()
+                                                    or (np.asarray(r.build_right_vector(lv)) == SENTINEL).any()):
+                    aliased.append('build_left_matrix/build_right_vector')
+            if (np.asarray(r.surpluses[tuple(lvl)]) == SENTINEL).any():
+                aliased.append('evaluate_levelvec')
+                r.surpluses[tuple(lvl)] = np.array(out['stored'])        # restore for the following steps
         else:
             from sparseSpACE.Grid import GlobalTrapezoidalGrid
-            stripes = [list(s) for s in case['stripes']]
-            levels = [list(l) for l in case['levels']]
+            stripes = args.add('gridPointCoordsAsStripes', [list(s) for s in case['stripes']])
+            levels = args.add('grid_point_levels', [list(l) for l in case['levels']])
             r.grid = GlobalTrapezoidalGrid(a=np.zeros(dim), b=np.ones(dim), modified_basis=False, boundary=False)
             r.grid.set_grid(stripes, levels)
-            out['A'] = _de.tolist(r.build_A_matrix_dimension_wise(stripes, levels))
-            out['C'] = _de.tolist(r.build_C_matrix_dimension_wise(stripes, levels))
+            A = r.build_A_matrix_dimension_wise(stripes, levels)
+            out['A'] = _de.tolist(A)
+            C = r.build_C_matrix_dimension_wise(stripes, levels)
+            out['C'] = _de.tolist(C)
             if case['lam'] == 0:
                 al = r.solve_regression_dimension_wise(stripes, levels, None)
             else:
                 al = r.solve_regression_dimension_wise_smooth(stripes, levels, None)
             out['alphas'] = _de.tolist(al)
+            A[...] = SENTINEL; C[...] = SENTINEL; al[...] = SENTINEL
+            if (np.asarray(r.build_A_matrix_dimension_wise(stripes, levels)) == SENTINEL).any():
+                aliased.append('build_A_matrix_dimension_wise')
+            if (np.asarray(r.build_C_matrix_dimension_wise(stripes, levels)) == SENTINEL).any():
+                aliased.append('build_C_matrix_dimension_wise')
+        out['aliased'] = aliased
         return out
     # ---- training runs + Opticom on ONE object
     calls = []
+    implicit = bool(case.get('implicit_defaults'))
     if kind == 'train-adaptive':
         orig = r.__class__.calculate_operation_dimension_wise
 
@@ -534,9 +817,14 @@ def _step(r, case):
             return res
         r.calculate_operation_dimension_wise = logged
         try:
-            combi = r.train_spatially_adaptive(case['pct'], 0.5, 1e-5, case.get('max_evals', 0), False, False)
+            if implicit:
+                combi = r.train_spatially_adaptive(case['pct'], 0.5, 1e-5, case.get('max_evals', 0))
+            else:
+                combi = r.train_spatially_adaptive(case['pct'], 0.5, 1e-5, case.get('max_evals', 0), False, False)
         finally:
             del r.calculate_operation_dimension_wise
+    elif implicit and not case.get('noisy'):
+        combi = r.train(case['pct'], case['lmin'], case['lmax'])
     else:
         combi = r.train(case['pct'], case['lmin'], case['lmax'], bool(case.get('noisy')))
     out['train_data'] = _de.tolist(r.training_data)
@@ -547,13 +835,20 @@ def _step(r, case):
     out['surpluses'] = {_lvkey(g.levelvector): _de.tolist(r.surpluses[tuple(g.levelvector)]) for g in combi.scheme}
     out['A'] = {}
     out['C'] = {}
+    out['L'] = {}
+    out['rhs'] = {}
     if kind == 'train':
         for g in combi.scheme:
             lv = [int(x) for x in g.levelvector]
             r.grid.numPoints = 2 ** np.asarray(lv, dtype=int) - 1
+            N = int(np.prod(r.grid.numPoints))
             out['A'][_lvkey(lv)] = _de.tolist(r.build_A_matrix(lv))
-            if case['matrix'] == 'C' and case['lam'] != 0 and int(np.prod(r.grid.numPoints)) <= 64:
+            if case['matrix'] == 'C' and case['lam'] != 0 and N <= 64:
                 out['C'][_lvkey(lv)] = _de.tolist(r.build_C_matrix(lv))
+            if case['lam'] != 0 and N <= 30 and len(r.training_data) <= 300:
+                L = r.build_left_matrix(lv); rhs = r.build_right_vector(lv)
+                out['L'][_lvkey(lv)] = _de.tolist(L); out['rhs'][_lvkey(lv)] = _de.tolist(rhs)
+                L[...] = SENTINEL; rhs[...] = SENTINEL
     else:
         # every solve of the run (all refinement iterations); the last ones are those of the final scheme
         keep = calls[:3] + calls[-9:] if len(calls) > 12 else calls
@@ -561,6 +856,11 @@ def _step(r, case):
             rec['A'] = _de.tolist(r.build_A_matrix_dimension_wise(rec['stripes'], rec['levels']))
         out['calls'] = keep
         out['n_calls'] = len(calls)
+    done, changed = _observers(r, case, combi, rs)
+    out['observers'] = done; out['observer_changed'] = changed
+    after_obs = {_lvkey(g.levelvector): _de.tolist(r.surpluses[tuple(g.levelvector)]) for g in combi.scheme}
+    if after_obs != out['surpluses'] and 'surpluses' not in changed:
+        out['observer_changed'] = changed + ['surpluses']
     saved = [g.coefficient for g in combi.scheme]
     opt = {}
     for option in (1, 2, 3):
@@ -568,7 +868,12 @@ def _step(r, case):
             g.coefficient = c
         try:
             if kind == 'train':
-                r.optimize_coefficients(combi, option)
+                if option == 1 and implicit:
+                    r.optimize_coefficients(combi)
+                else:
+                    r.optimize_coefficients(combi, option)
+            elif option == 1 and implicit:
+                r.optimize_coefficients_spatially_adaptive(combi)
             else:
                 r.optimize_coefficients_spatially_adaptive(combi, option)
             opt[option] = ('ok', [float(g.coefficient) for g in combi.scheme])
@@ -579,21 +884,52 @@ def _step(r, case):
             tb = traceback.extract_tb(e.__traceback__)
             opt[option] = ('exc', type(e).__name__, '%s:%d' % (tb[-1].filename.split('/')[-1], tb[-1].lineno), str(e)[:120])
     out['opticom'] = opt
+    out['surpluses_after_opticom_unchanged'] = after_obs == {_lvkey(g.levelvector): _de.tolist(r.surpluses[tuple(g.levelvector)])
+                                                             for g in combi.scheme}
+    out['aliased'] = aliased
     return out
 
 
+def _sibling(case):
+    """an object of the sibling class (DensityEstimation, same base class MachineLearning) works in the same process"""
+    import numpy as np
+    from sparseSpACE.GridOperation import DensityEstimation
+    from sparseSpACE.StandardCombi import StandardCombi
+    from sparseSpACE.Utils import print_levels, log_levels
+    dim = case['dim']
+    de = DensityEstimation(np.array(case['data'], dtype=float), dim, lambd=case.get('lam', 0.0), print_level=print_levels.ERROR,
+                           log_level=log_levels.ERROR)
+    sc = StandardCombi(np.zeros(dim), np.ones(dim), operation=de, print_output=False)
+    sc.perform_operation(1, 2)
+    return dict(sibling=True)
+
+
 def impl_case(case):
-    """returns one (status, value) per executed step; stops at the first step that raises"""
+    """returns one (status, value) per executed step; stops at the first step that raises.
+    Steps address objects by 'obj' (several live objects, interleaved); 'reuse' = work on the existing object, 'reinit' = run
+    its constructor again with this step's arguments, 'same_arrays' = hand over the very data / target objects of the previous
+    construction."""
     import traceback
     from ..impl import REPO
     steps = case['steps'] if case['kind'] == 'history' else [case]
     outs = []
-    obj = None
+    objs = {}
+    args = _Args()
+    last_arrays = None
     for st in steps:
         try:
-            if not (st.get('reuse') and obj is not None):
-                obj = _mk(st, default_range=st['kind'] == 'construct')       # "with default construction arguments"
-            outs.append(('ok', _step(obj, st)))
+            if st['kind'] == 'sibling':
+                outs.append(('ok', _sibling(st)))
+                continue
+            oid = st.get('obj', 0)
+            arrays = last_arrays if st.get('same_arrays') and last_arrays is not None else None
+            if st.get('reinit') and oid in objs:
+                objs[oid], last_arrays = _mk(st, args=args, arrays=arrays, target=objs[oid])
+            elif not (st.get('reuse') and oid in objs):
+                objs[oid], last_arrays = _mk(st, default_range=st['kind'] == 'construct', args=args, arrays=arrays)
+            o = _step(objs[oid], st, args)
+            o['mutated'] = args.mutated()
+            outs.append(('ok', o))
         except Exception as e:
             if type(e).__name__ == 'CaseTimeout':
                 raise
@@ -654,11 +990,15 @@ def _check_scaling(chk, c, rep, r):
         col = [x[d] for x in data]
         mn, mx = min(col), max(col)
         # MinMaxScaler computes x * scale + (lo - min * scale): absolute error about eps * |x| * scale (cancellation-aware bound)
-        amp = float(max(abs(mn), abs(mx)) / (mx - mn)) if mx != mn else 1.0
+        # (a constant feature is scaled with scale 1: x * 0.9 + (0.05 - x * 0.9))
+        amp = float(max(abs(mn), abs(mx)) / (mx - mn)) if mx != mn else max(1.0, float(abs(mn)))
         for x, s in zip(data, sd):
             want = lo + (x[d] - mn) / (mx - mn) * (hi - lo) if mx != mn else lo
             if not _de.close(s[d], want, 1e-12, 0, 1e-13 + 16 * _de.EPS * amp):
-                chk.violation('oracle:scaling', 'scaling-differs', _sig(c, 'scaling'), rep, dict(got=float(s[d]), want=float(want)))
+                # sklearn's MinMaxScaler treats a feature whose range is below 10 * eps (absolute) as constant
+                tiny = mx != mn and (mx - mn) < 10 * F(1, 2 ** 52)
+                chk.violation('oracle:scaling', 'scaling-differs', _sig(c, 'scaling', range_below_10_eps=bool(tiny)), rep,
+                              dict(got=float(s[d]), want=float(want), feature=d, feature_range=float(mx - mn)))
                 return False
     if fr(r['y']) != fr(c['y']):
         chk.violation('oracle:scaling', 'targets-changed', _sig(c, 'targets'), rep, dict(got=r['y'][:5]))
@@ -691,12 +1031,14 @@ def _check_split(chk, c, rep, r):
 
 class Unit:
     """one component-grid solve of one step"""
-    __slots__ = ('c', 'rep', 'grid', 'A_i', 'C_i', 'al_i', 'data_s', 'y_s', 'via', 'tier', 'rows', 'res', 'resC', 'resA', 'resP')
+    __slots__ = ('c', 'rep', 'grid', 'A_i', 'C_i', 'al_i', 'data_s', 'y_s', 'via', 'tier', 'rows', 'res', 'resC', 'resA', 'resP',
+                 'L_i', 'rhs_i')
 
     def __init__(self, c, rep, grid, A_i, C_i, al_i, data_s, y_s, via):
         self.c, self.rep, self.grid, self.A_i, self.C_i, self.al_i = c, rep, grid, A_i, C_i, al_i
         self.data_s, self.y_s, self.via = data_s, y_s, via
         self.tier = None; self.rows = None; self.res = None; self.resC = None; self.resA = None; self.resP = None
+        self.L_i = None; self.rhs_i = None
 
     def stripes(self):
         return _de.uniform_stripes(self.grid['lv']) if 'lv' in self.grid else fr(self.grid['stripes'])
@@ -824,6 +1166,23 @@ def _check_grid(chk, u):
                           dict(impl=str(C_i)[:400], model=str([[float(x) for x in r] for r in Cc_m])[:400] if Cc_m else None,
                                gradient_gram=str([[float(x) for x in r] for r in C_s])[:400]))
             return False
+    # ---- the system the code solves, observed through build_left_matrix / build_right_vector after the solve
+    if u.L_i is not None and (C_s is not None or not use_C):
+        m = len(A_s)
+        cols = [[A_s[r_][c_] for r_ in range(m)] for c_ in range(N)]
+        L_s = [[sum((a * b for a, b in zip(cols[i], cols[j]) if a != 0 and b != 0), F(0)) / m
+                + lam * (C_s[i][j] if use_C else (1 if i == j else 0)) for j in range(N)] for i in range(N)]
+        r_s = [sum((a * b for a, b in zip(cols[i], y_s) if a != 0), F(0)) / m for i in range(N)]
+        top = float(max([abs(x) for row in L_s for x in row] + [F(1, 10 ** 300)]))
+        rtop = float(sum((abs(cols[i][k_]) * abs(y_s[k_]) for i in range(N) for k_ in range(m)), F(0)) / m) + 1e-300
+        okL = mat_close(fr(u.L_i), L_s, 1e-10, 1e-13 * top)
+        okr = mat_close([fr(u.rhs_i)], [r_s], 1e-10, 1e-13 * rtop)
+        chk.count('system-matrix-observed-after-solve')
+        if not (okL and okr) and not (model_predicts and use_C):
+            chk.violation('oracle:system_matrix', 'system-differs', dict(gsig, matrix=c['matrix'], left=okL, right=okr), rep,
+                          dict(impl_left=str(u.L_i)[:300], want_left=str([[float(x) for x in row] for row in L_s])[:300],
+                               impl_right=str(u.rhs_i)[:200], want_right=str([float(x) for x in r_s])[:200]))
+            ok = False
     # ---- normal equations of the stated problem, residual of the implementation's surpluses
     chk.count('residual-checks')
     if use_C and lam != 0 and C_s is None:
@@ -869,12 +1228,16 @@ def _units_of_step(chk, c, rep, r):
             chk.violation('oracle:surpluses_stored', 'stored-surpluses-differ', _sig(c, 'surpluses'), rep,
                           dict(returned=str(r['alphas'])[:200], stored=str(r['stored'])[:200]))
             return None
-        us.append(Unit(c, rep, grid, r['A'], r['C'], r['alphas'], fr(r['train_data']), fr(r['train_y']), 'direct'))
+        u = Unit(c, rep, grid, r['A'], r['C'], r['alphas'], fr(r['train_data']), fr(r['train_y']), 'direct')
+        u.L_i, u.rhs_i = r.get('L'), r.get('rhs')
+        us.append(u)
     elif k == 'train':
         td, ty = fr(r['train_data']), fr(r['train_y'])
         for lv in r['scheme']:
             key = _lvkey(lv)
-            us.append(Unit(c, rep, dict(lv=lv), r['A'].get(key), r['C'].get(key), r['surpluses'][key], td, ty, k))
+            u = Unit(c, rep, dict(lv=lv), r['A'].get(key), r['C'].get(key), r['surpluses'][key], td, ty, k)
+            u.L_i, u.rhs_i = r['L'].get(key), r['rhs'].get(key)
+            us.append(u)
     elif k == 'train-adaptive':
         td, ty = fr(r['train_data']), fr(r['train_y'])
         chk.count('adaptive-solves-per-run=%s' % ('3' if r['n_calls'] <= 3 else '4..12' if r['n_calls'] <= 12 else '>12'))
@@ -954,6 +1317,13 @@ def _axes(chk, c):
         chk.count('training-subset-changed-on-one-object')
     if c.get('all_defaults'):
         chk.count('constructor=all-defaults')
+    if c.get('lv_container'):
+        chk.count('level-vector-container=' + c['lv_container'])
+    for flag in ('reinit', 'same_arrays', 'implicit_defaults'):
+        if c.get(flag):
+            chk.count('step:' + flag)
+    if c.get('obj'):
+        chk.count('step-on-second/third-live-object')
 
 
 def process(chk, cases, verbose=False):
@@ -994,6 +1364,25 @@ def process(chk, cases, verbose=False):
             step_units.append(None)
             continue
         chk.traces += 1
+        if s['kind'] == 'sibling':
+            step_units.append([])
+            continue
+        # ---- sweep oracles: arguments untouched, results not aliased to the object's state, observers leave the state alone
+        if sr.get('mutated'):
+            chk.violation('oracle:argument_immutability', 'argument-mutated', dict(path=s['kind'], arguments=sorted(set(sr['mutated']))), rep,
+                          dict(mutated=sr['mutated'], container=s.get('container', 'ndarray')))
+        for name in sr.get('aliased') or []:
+            chk.violation('oracle:returned_objects', 'result-aliases-internal-state', dict(path=s['kind'], call=name), rep,
+                          dict(call=name, detail='writing into the object returned by the call changed what the Regression object '
+                                                 'stores / returns afterwards'))
+        if sr.get('observer_changed'):
+            chk.violation('oracle:observers', 'observer-changed-state', dict(path=s['kind'], changed=sr['observer_changed']), rep,
+                          dict(observers=sr.get('observers'), changed=sr['observer_changed']))
+        if sr.get('surpluses_after_opticom_unchanged') is False:
+            chk.violation('oracle:observers', 'observer-changed-state', dict(path=s['kind'], changed=['surpluses'], by='optimize_coefficients'),
+                          rep, 'the coefficient optimisation changed the stored surpluses')
+        for name in sr.get('observers') or []:
+            chk.count('observer-between-steps=' + name)
         if not _check_scaling(chk, s, rep, sr):
             step_units.append(None)
             continue
@@ -1031,7 +1420,7 @@ def process(chk, cases, verbose=False):
             # verified checker psd_check on the exact rational image of the implementation's smoothing matrix
             mc.append((7, [fr(u.C_i)])); slot.append((u, 'resP'))
     t0 = time.time()
-    for (u, name), res in zip(slot, run_model(20, mc, nproc=16)):
+    for (u, name), res in zip(slot, run_model(20, mc, nproc=max(1, min(16, int(os.environ.get('VERIF_NPROC', '0') or 16))))):
         setattr(u, name, res)
     t_model = time.time() - t0
     t0 = time.time()
@@ -1138,6 +1527,51 @@ def shrink(chk, first_new):
             v['size'] = len(str(best['case']))
 
 
+def confirm_alone(chk, first_new, cases):
+    """worker processes serve many cases, so state shared across instances (class attributes, module caches) can make a single
+    request fail that is fine in a fresh process.  Such a violation is re-run alone; if it does not reproduce, the request is
+    paired with earlier requests of the run (two objects in one fresh process) until it does, and that history is reported."""
+    done = 0
+    singles = [c for c in cases if c.get('kind') in ('train', 'uniform', 'dimension-wise', 'train-adaptive') and len(c['data']) <= 64]
+    for v in chk.violations[first_new:]:
+        c = v['case']
+        if done >= 3 or not v['failing_input'] or not isinstance(c, dict) or c.get('kind') not in ('train', 'uniform', 'dimension-wise',
+                                                                                                   'train-adaptive'):
+            continue
+        if v['sig'].get('model_predicts') or len(c.get('data', [])) > 300:
+            continue
+        done += 1
+        try:
+            import sparseSpACE.GridOperation  # noqa: F401  (forked workers inherit the loaded library)
+        except Exception:
+            pass
+
+        def hit(case):
+            sc = _Scratch(chk)
+            try:
+                process(sc, [case])
+            except Exception:
+                return None
+            h = [w for w in sc.violations if w['kind'] == v['kind'] and w['failing_input']]
+            return h[0] if h else None
+        if hit(c):
+            v['detail'] = dict(v['detail'], reproduced_alone_in_a_fresh_process=True) if isinstance(v['detail'], dict) else v['detail']
+            continue
+        found = None
+        for prev in singles[:25]:
+            if prev is c:
+                continue
+            found = hit(dict(kind='history', flavour='objects', dim=prev['dim'], steps=[prev, c]))
+            if found:
+                break
+        if found:
+            v['case'] = found['case']
+            v['detail'] = dict(found['detail'], needs_an_earlier_object_in_the_same_process=True) if isinstance(found['detail'], dict) else found['detail']
+        elif isinstance(v['detail'], dict):
+            v['detail'] = dict(v['detail'], reproduced_alone_in_a_fresh_process=False,
+                               note='fails only after other requests in the same worker process (state shared across instances)')
+
+
 def run(chk):
     import time
     t0 = time.time()
@@ -1160,10 +1594,13 @@ def run(chk):
     cases += [gen_train(rng, adaptive=True) for _ in range(chk.n(8, 60))]
     cases += [gen_train(rng, adaptive=True, size='medium') for _ in range(chk.n(1, 8))]
     cases += [gen_train(rng, adaptive=True, size='large') for _ in range(chk.n(1, 6))]
-    cases += [gen_history(rng, q) for _ in range(chk.n(24, 300))]
+    # every flavour of history occurs at least three times in every run, the rest is drawn at random
+    cases += [gen_history(rng, q, fl) for fl in HISTORY_FLAVOURS for _ in range(5 if fl == 'reinit' else 3)]
+    cases += [gen_history(rng, q) for _ in range(chk.n(8, 300))]
     nv0 = len(chk.violations)
     process(chk, cases)
     shrink(chk, nv0)
+    confirm_alone(chk, nv0, cases)
 
 
 def replay(chk, rep):
